@@ -251,6 +251,10 @@ func (sc *SpecCtx) ident(x *SX) Val {
 	case "nil":
 		return Val{Ty: types.Typ[types.UntypedNil], T: intLit(0)}
 	}
+	if g := vc.eng.contracts.Ghosts[name]; g != nil {
+		l := sc.ghostLoc(g)
+		return Val{Ty: l.Ty, T: sc.load(l)}
+	}
 	if sc.pkg != nil {
 		if o := sc.pkg.Scope().Lookup(name); o != nil {
 			switch o := o.(type) {
@@ -273,6 +277,14 @@ func (sc *SpecCtx) ident(x *SX) Val {
 	}
 	sc.fail(x, "unknown identifier "+name)
 	return Val{}
+}
+
+// ghostLoc: a ghost variable is a cell of its own heap component at reference 1.
+func (sc *SpecCtx) ghostLoc(g *Ghost) *Loc {
+	n := *sc
+	n.pkg = sc.vc.eng.pkgTypes(g.Pkg, sc.pkg)
+	ty := n.lookupType(g.Type)
+	return &Loc{Root: "G", Comp: "GH_" + smtQuote(g.Name), Sort: arraySort(SInt, sc.vc.sortOf(ty)), Ref: intLit(1), Ty: ty}
 }
 
 func (sc *SpecCtx) load(l *Loc) Term {
